@@ -1557,7 +1557,8 @@ class GraphProp:
         domain = r.choice(profile.get("domains", ["dense"] * 12 + ["sparse"] * 4 + ["sym"] * 2 + ["tracer"] * 4 + ["sq"] + ["wrapped"] * 2))
         if domain == "sym":
             nb = min(nb, 2)
-            npert = 1
+            # two symbols only for the expression / monomial-key formats (the library's Taylor expansion picks derivative axes)
+            npert = 2 if ("fmts" not in profile and r.random() < 0.3) else 1
         if domain == "tracer":
             nb = min(nb, 3)
             npert = min(npert, 2)
@@ -1571,6 +1572,9 @@ class GraphProp:
         fmt = r.choice(profile.get("fmts", ["blocked"] * 10 + ["scalar_idx"] * 4 + ["scalar_vecs", "scalar_vecs", "dict", "dict", "list", "list", "nested", "nested", "symkeys"]))
         if domain == "sym":
             fmt = r.choice(["blocked", "blocked", "blocked", "sympy_expr", "symkeys"]) if "fmts" not in profile else "blocked"
+            if npert == 2:
+                fmt = r.choice(["sympy_expr", "sympy_expr", "symkeys"])
+                sizes = [1] * nb if r.random() < 0.6 else [r.choice([1, 2]) for _ in range(nb)]
         if domain in ("tracer", "sq"):
             fmt = "blocked"
         if domain == "wrapped":
@@ -1590,6 +1594,10 @@ class GraphProp:
             # every perturbative symbol has to occur
             terms = [tuple(int(k == a) for k in range(npert)) for a in range(npert)]
             for o in r.sample(cand, min(len(cand), r.randint(0, 2))):
+                if o not in terms:
+                    terms.append(o)
+            if npert == 2 and r.random() < 0.7:
+                o = r.choice([(2, 1), (1, 2), (1, 1)])  # a term that is non-linear in both symbols
                 if o not in terms:
                     terms.append(o)
         else:
